@@ -202,7 +202,43 @@ class Builder:
     def build(self, template_path):
         self._prescan(template_path, set())
         self._process_file(template_path, set())
-        return '\n'.join(self.out_lines) + '\n'
+        text = '\n'.join(self.out_lines) + '\n'
+        return self._default_fmt_helpers(text)
+
+    def _default_fmt_helpers(self, text):
+        """R6b default: a `wfmt_<tag>` call whose literal has no helper declared in the template gets the default contract
+        (core::fmt renders it into the Vec without failing; the bytes are unspecified).  Code that starts formatting
+        through a new literal therefore fails any postcondition that pins the output down, instead of being undecided."""
+        defined = set(re.findall(r'\bfn\s+(wfmt_\w+)', text))
+        need = {}
+        for m in re.finditer(r'\b(wfmt_\w+)\s*\(', text):
+            name = m.group(1)
+            if name in defined:
+                continue
+            depth, i, commas = 1, m.end(), 0
+            while i < len(text) and depth:
+                c = text[i]
+                if c in '([{':
+                    depth += 1
+                elif c in ')]}':
+                    depth -= 1
+                elif c == ',' and depth == 1:
+                    commas += 1
+                i += 1
+            need[name] = commas      # arguments after the writer
+        if not need:
+            return text
+        lines = ['', 'verus! {', '// R6b default helpers [trusted: core::fmt renders a literal not listed in the template; returns Ok, bytes unspecified]']
+        for name, n in sorted(need.items()):
+            tps = ', '.join(f'T{i}' for i in range(n))
+            args = ''.join(f', a{i}: T{i}' for i in range(n))
+            lines.append(f'#[verifier::external_body] pub fn {name}<{tps}>(w: &mut Vec<u8>{args}) -> (r: std::result::Result<(), std::io::Error>) ensures r is Ok {{ unimplemented!() }}')
+        lines.append('} // verus!')
+        # insert before the final `fn main`
+        idx = text.rfind('fn main()')
+        if idx < 0:
+            return text + '\n'.join(lines) + '\n'
+        return text[:idx] + '\n'.join(lines) + '\n' + text[idx:]
 
     def _prescan(self, path, seen):
         """collect the names of consts the templates declare themselves (directives or hand-written), so that the
